@@ -1,11 +1,187 @@
 --------------------------- MODULE Known_Strings ---------------------------
 (* Named deviation actions for the recorded known findings of property C20           *)
-(* (see /verif/known_findings.json).  Filled in below.                               *)
+(* (see /verif/known_findings.json).  A deviation is enabled only for the listed      *)
+(* subject and only under its semantic trigger, and it states WHAT the subject is      *)
+(* recorded to do instead of the contract: every entry of a batch that the trigger      *)
+(* does not cover must still equal the definition.  The trace specification records     *)
+(* the ids taken on an accepted path in the variable kf.                                *)
 EXTENDS LexIter, TLC
 
 Num == INSTANCE NumericCmp
 
-KnownIds == {}
-DevApplies(id, e, subj) == FALSE
-KnownDeviation(id, e, subj) == FALSE
+KnownIds == {"C20-KF1", "C20-KF2", "C20-KF3", "C20-KF4", "C20-KF5", "C20-KF6", "C20-KF7", "C20-KF8", "C20-KF9"}
+
+Pure_(P) == P /\ UNCHANGED livars
+
+(* ------------------------------------------------------------------------------------------ *)
+(* C20-KF1: sse42_strcmp ("Performs lexicographic comparison") answers by LENGTH first: a       *)
+(* shorter slice is Less than a longer one whatever the bytes ("b" < "aa").  Equal lengths       *)
+(* compare correctly.                                                                            *)
+ShortLex(x, y) == IF Len(x) # Len(y) THEN Sgn(Len(x) - Len(y)) ELSE Cmp(x, y)
+G1(e, subj) == /\ subj.subject = "simd:sse42_strcmp" /\ e.op = "cmp_matrix"
+               /\ \E i \in 1..Len(e.a) : \E j \in 1..Len(e.b) : ShortLex(e.a[i], e.b[j]) # Cmp(e.a[i], e.b[j])
+KF1(e, subj) == /\ G1(e, subj)
+                /\ Pure_(IsMatrix(e.a, e.b, e.m) /\
+                         \A i \in 1..Len(e.a) : \A j \in 1..Len(e.b) : e.m[i][j] = ShortLex(e.a[i], e.b[j]))
+
+(* ------------------------------------------------------------------------------------------ *)
+(* the midpoint binary search used by SortedVecLexIterator::seek_lower_bound and                 *)
+(* ZoSortedStrVec::binary_search: returns the element it HITS when some element equals t (any     *)
+(* of a run of duplicates), else the insertion point.  idx is 0-based.                            *)
+RECURSIVE BSearch(_, _, _, _)
+BSearch(v, t, left, right) ==
+    IF left >= right THEN [found |-> FALSE, idx |-> left]
+    ELSE LET mid == left + ((right - left) \div 2)
+             c == Cmp(v[mid + 1], t)
+         IN IF c < 0 THEN BSearch(v, t, mid + 1, right)
+            ELSE IF c > 0 THEN BSearch(v, t, left, mid)
+            ELSE [found |-> TRUE, idx |-> mid]
+BS(v, t) == BSearch(v, t, 0, Len(v))
+
+SortedVecSubjects == {"lexiter:sortedvec", "lexiter:builder_sortedvec"}
+
+(* C20-KF2: with duplicates of the target in the sequence, seek_lower_bound positions the cursor  *)
+(* on the duplicate the binary search happens to hit instead of the FIRST element >= target (the    *)
+(* earlier copies are skipped by a forward scan), and seek_upper_bound = that position + 1 may      *)
+(* still be on a copy of the target instead of the first element > target.                          *)
+G2(e, subj) == /\ subj.subject \in SortedVecSubjects /\ e.op \in {"li_lower", "li_upper"} /\ e.ok
+               /\ BS(S, e.t).found
+               /\ IF e.op = "li_lower" THEN BS(S, e.t).idx + 1 # LowerBound(e.t)
+                                       ELSE BS(S, e.t).idx + 2 # UpperBound(e.t)
+KF2(e, subj) == /\ G2(e, subj)
+                /\ pos' = (IF e.op = "li_lower" THEN BS(S, e.t).idx + 1 ELSE BS(S, e.t).idx + 2)
+                /\ e.r = (e.op = "li_lower")
+                /\ S' = S
+
+(* C20-KF3: prev() at the end position (current() = None) does not step back to the last element:  *)
+(* it jumps to the FIRST element and answers false.                                                 *)
+G3(e, subj) == /\ subj.subject \in SortedVecSubjects /\ e.op = "li_prev" /\ e.ok
+               /\ pos = End /\ Len(S) > 0 /\ e.r = FALSE
+KF3(e, subj) == G3(e, subj) /\ pos' = 1 /\ S' = S
+
+(* C20-KF4: StreamingLexIterator::current() answers None while the cursor is on an EMPTY string     *)
+(* (it tests current_line.is_empty()), so empty elements are invisible / look like the end.         *)
+G4(e, subj) == /\ subj.subject = "lexiter:streaming" /\ e.op = "li_current"
+               /\ pos \in 1..Len(S) /\ S[pos] = <<>> /\ e.r = <<>>
+KF4(e, subj) == G4(e, subj) /\ UNCHANGED livars
+
+(* ------------------------------------------------------------------------------------------ *)
+(* C20-KF5: decimal_strcmp / decimal_strcmp_with_sign decide by the sign flag before looking at    *)
+(* the magnitude: a negative zero is Less than a non-negative zero ("-0" < "0", "-00" < "+0").      *)
+NegZeroCell(xb, xneg, yb, yneg) == Num!IsZeroBody(xb) /\ Num!IsZeroBody(yb) /\ xneg # yneg
+D5(x, y, r) ==
+    IF Num!ValidDecimal(x) /\ Num!ValidDecimal(y) /\ NegZeroCell(Num!Body(x), Num!Negative(x), Num!Body(y), Num!Negative(y))
+    THEN r = (IF Num!Negative(x) THEN -1 ELSE 1)
+    ELSE Num!DecimalAnswerOK(x, y, r)
+D5s(x, y, r) ==
+    IF NegZeroCell(x.b, x.neg, y.b, y.neg) THEN r = (IF x.neg THEN -1 ELSE 1)
+    ELSE r = Num!SignedCmp(x.b, x.neg, y.b, y.neg)
+G5(e, subj) ==
+    \/ /\ subj.subject = "numcmp:decimal_strcmp" /\ e.op = "numcmp" /\ e.kind = "decimal"
+       /\ \E i \in 1..Len(e.a) : \E j \in 1..Len(e.b) :
+             /\ Num!ValidDecimal(e.a[i]) /\ Num!ValidDecimal(e.b[j])
+             /\ NegZeroCell(Num!Body(e.a[i]), Num!Negative(e.a[i]), Num!Body(e.b[j]), Num!Negative(e.b[j]))
+    \/ /\ subj.subject = "numcmp:decimal_with_sign" /\ e.op = "numcmp_sign" /\ e.kind = "decimal"
+       /\ \E i \in 1..Len(e.a) : \E j \in 1..Len(e.b) : NegZeroCell(e.a[i].b, e.a[i].neg, e.b[j].b, e.b[j].neg)
+KF5(e, subj) ==
+    /\ G5(e, subj)
+    /\ Pure_(/\ Num!IsMatrix(e.a, e.b, e.m)
+             /\ \A i \in 1..Len(e.a) : \A j \in 1..Len(e.b) :
+                   IF e.op = "numcmp" THEN D5(e.a[i], e.b[j], e.m[i][j]) ELSE D5s(e.a[i], e.b[j], e.m[i][j]))
+
+(* C20-KF6: realnum_strcmp / realnum_strcmp_with_sign compare the TEXT: after the sign check, the   *)
+(* position of the decimal point (= number of integer digits, leading zeros included) decides, and    *)
+(* when it is equal the two bodies are compared as strings.  Right for canonical forms; wrong as      *)
+(* soon as an operand has a leading zero or an empty integer part, a trailing fraction zero or a       *)
+(* trailing ".", or is a negative zero ("1" < "1.0", "01" > "2", ".5" < "0.5", "-0" < "0").            *)
+PointIndex(b) == IF Num!DotCount(b) = 0 THEN Len(b) ELSE Num!DotPos(b) - 1
+ImplReal(xb, xneg, yb, yneg) ==
+    IF xneg /\ ~yneg THEN -1
+    ELSE IF ~xneg /\ yneg THEN 1
+    ELSE LET c == IF PointIndex(xb) = PointIndex(yb) THEN Cmp(xb, yb) ELSE Sgn(PointIndex(xb) - PointIndex(yb))
+         IN IF xneg THEN -c ELSE c
+CanonicalBody(b, neg) ==
+    LET ip == Num!IntPart(b)  fp == Num!FracPart(b) IN
+    /\ Len(ip) >= 1 /\ (Len(ip) = 1 \/ ip[1] # Num!Zero)
+    /\ Num!DotCount(b) = 1 => (Len(fp) >= 1 /\ fp[Len(fp)] # Num!Zero)
+    /\ ~(neg /\ Num!IsZeroBody(b))
+D6(xb, xneg, yb, yneg, r) ==
+    IF CanonicalBody(xb, xneg) /\ CanonicalBody(yb, yneg) THEN r = Num!SignedCmp(xb, xneg, yb, yneg)
+    ELSE r = ImplReal(xb, xneg, yb, yneg)
+D6str(x, y, r) ==
+    IF Num!ValidReal(x) /\ Num!ValidReal(y) THEN D6(Num!Body(x), Num!Negative(x), Num!Body(y), Num!Negative(y), r)
+    ELSE Num!RealAnswerOK(x, y, r)
+G6(e, subj) ==
+    \/ /\ subj.subject = "numcmp:realnum_strcmp" /\ e.op = "numcmp" /\ e.kind = "real"
+       /\ \E i \in 1..Len(e.a) : \E j \in 1..Len(e.b) :
+             /\ Num!ValidReal(e.a[i]) /\ Num!ValidReal(e.b[j])
+             /\ ImplReal(Num!Body(e.a[i]), Num!Negative(e.a[i]), Num!Body(e.b[j]), Num!Negative(e.b[j])) # Num!ValueCmp(e.a[i], e.b[j])
+    \/ /\ subj.subject = "numcmp:realnum_with_sign" /\ e.op = "numcmp_sign" /\ e.kind = "real"
+       /\ \E i \in 1..Len(e.a) : \E j \in 1..Len(e.b) :
+             ImplReal(e.a[i].b, e.a[i].neg, e.b[j].b, e.b[j].neg) # Num!SignedCmp(e.a[i].b, e.a[i].neg, e.b[j].b, e.b[j].neg)
+KF6(e, subj) ==
+    /\ G6(e, subj)
+    /\ Pure_(/\ Num!IsMatrix(e.a, e.b, e.m)
+             /\ \A i \in 1..Len(e.a) : \A j \in 1..Len(e.b) :
+                   IF e.op = "numcmp" THEN D6str(e.a[i], e.b[j], e.m[i][j])
+                   ELSE D6(e.a[i].b, e.a[i].neg, e.b[j].b, e.b[j].neg, e.m[i][j]))
+
+(* ------------------------------------------------------------------------------------------ *)
+(* C20-KF7: ZoSortedStrVec::range(lo, hi) takes both ends from binary_search (any copy of an equal   *)
+(* element): with duplicates of lo the earlier copies are skipped, with duplicates of hi copies of     *)
+(* hi are delivered although the end is exclusive.                                                     *)
+ImplRange(v, lo, hi) == SubSeq(v, BS(v, lo).idx + 1, MinI(BS(v, hi).idx, Len(v)))
+G7(e, subj) == /\ subj.subject = "sorted:zo_range" /\ e.op = "zo_range"
+               /\ \E i \in 1..Len(e.cases) : ImplRange(e.S, e.cases[i].lo, e.cases[i].hi) # SelectRange(e.S, e.cases[i].lo, e.cases[i].hi, 1)
+KF7(e, subj) == /\ G7(e, subj)
+                /\ Pure_(\A i \in 1..Len(e.cases) : ~e.cases[i].ok \/ e.cases[i].r = ImplRange(e.S, e.cases[i].lo, e.cases[i].hi))
+
+(* ------------------------------------------------------------------------------------------ *)
+(* C20-KF8: LineProcessor::count_lines with skip_empty_lines tests line.trim().is_empty() even when  *)
+(* trim_whitespace is off: lines made of white space only are not counted although process_lines       *)
+(* delivers them (and, with preserve_line_endings, an empty line "\n" is delivered but not counted).   *)
+NonBlank(ln) == \E i \in 1..Len(ln) : ~IsSpace(ln[i])
+CountNonBlank(t) == Cardinality({ i \in 1..Len(RawLines(t)) : NonBlank(RawLines(t)[i]) })
+L8(text, x) ==
+    IF x.ok /\ x.via = "count_lines" /\ x.s /\ ~x.t THEN x.n = CountNonBlank(text) ELSE LinesCaseOK(text, x)
+G8(e, subj) == /\ subj.subject = "lines:line_processor" /\ e.op = "lines"
+               /\ \E i \in 1..Len(e.res) :
+                     LET x == e.res[i] IN
+                     x.ok /\ x.via = "count_lines" /\ x.s /\ ~x.t /\ CountNonBlank(e.text) # Len(Lines(e.text, x.p, x.s, x.t))
+KF8(e, subj) == G8(e, subj) /\ Pure_(\A i \in 1..Len(e.res) : L8(e.text, e.res[i]))
+
+(* C20-KF9: LineSplitter with the optimized strategy, delimiter "," TAB or SPACE, drops a trailing     *)
+(* EMPTY field ("a," gives ["a"], "" gives []), unlike the simple strategy and unlike every other         *)
+(* delimiter.                                                                                            *)
+OptDelims == { <<44>>, <<9>>, <<32>> }
+DropLastEmpty(f) == IF Len(f) > 0 /\ f[Len(f)] = <<>> THEN SubSeq(f, 1, Len(f) - 1) ELSE f
+S9(c) == IF c.ok /\ c.d \in OptDelims THEN c.r = DropLastEmpty(Split(c.line, c.d)) ELSE SplitCaseOK(c)
+G9(e, subj) == /\ subj.subject = "split:optimized" /\ e.op = "split"
+               /\ \E i \in 1..Len(e.cases) : LET c == e.cases[i] IN
+                     c.ok /\ c.d \in OptDelims /\ DropLastEmpty(Split(c.line, c.d)) # Split(c.line, c.d)
+KF9(e, subj) == G9(e, subj) /\ Pure_(\A i \in 1..Len(e.cases) : S9(e.cases[i]))
+
+(* ------------------------------------------------------------------------------------------ *)
+(* guard (state predicate) and action of each deviation.  In KF mode a deviation whose guard    *)
+(* holds REPLACES the contract action for that event.                                            *)
+DevApplies(id, e, subj) ==
+    \/ id = "C20-KF1" /\ G1(e, subj)
+    \/ id = "C20-KF2" /\ G2(e, subj)
+    \/ id = "C20-KF3" /\ G3(e, subj)
+    \/ id = "C20-KF4" /\ G4(e, subj)
+    \/ id = "C20-KF5" /\ G5(e, subj)
+    \/ id = "C20-KF6" /\ G6(e, subj)
+    \/ id = "C20-KF7" /\ G7(e, subj)
+    \/ id = "C20-KF8" /\ G8(e, subj)
+    \/ id = "C20-KF9" /\ G9(e, subj)
+KnownDeviation(id, e, subj) ==
+    \/ id = "C20-KF1" /\ KF1(e, subj)
+    \/ id = "C20-KF2" /\ KF2(e, subj)
+    \/ id = "C20-KF3" /\ KF3(e, subj)
+    \/ id = "C20-KF4" /\ KF4(e, subj)
+    \/ id = "C20-KF5" /\ KF5(e, subj)
+    \/ id = "C20-KF6" /\ KF6(e, subj)
+    \/ id = "C20-KF7" /\ KF7(e, subj)
+    \/ id = "C20-KF8" /\ KF8(e, subj)
+    \/ id = "C20-KF9" /\ KF9(e, subj)
 =============================================================================
